@@ -44,7 +44,7 @@ func (w *World) evalStr(v ssa.Value, env senv, depth int) sval {
 	case *ssa.BinOp:
 		if x.Op == token.ADD && isStringType(x.Type()) {
 			l, r := w.evalStr(x.X, env, depth+1), w.evalStr(x.Y, env, depth+1)
-			return sval{parts: append(append([]spart{}, l.parts...), r.parts...)}
+			return sval{parts: mergeLits(append(append([]spart{}, l.parts...), r.parts...))}
 		}
 		return leafVal(v)
 	case *ssa.Alloc:
@@ -79,6 +79,15 @@ func (w *World) evalStr(v ssa.Value, env senv, depth int) sval {
 			}
 		}
 		return leafVal(v)
+	case *ssa.Phi:
+		if w.strKeep != nil && x.Parent() == w.strFn {
+			if vals := valuesUnder(w.strFn, x, w.strKeep); len(vals) == 1 {
+				if _, still := vals[0].(*ssa.Phi); !still {
+					return w.evalStr(vals[0], env, depth+1)
+				}
+			}
+		}
+		return leafVal(v)
 	case *ssa.Call:
 		name := w.calleeName(x)
 		if name == "fmt.Sprintf" {
@@ -87,7 +96,23 @@ func (w *World) evalStr(v ssa.Value, env senv, depth int) sval {
 			if !ok || !isC {
 				return leafVal(v)
 			}
-			return sval{parts: w.renderFormat(fs, args, env, depth)}
+			return sval{parts: mergeLits(w.renderFormat(fs, args, env, depth))}
+		}
+		// decimal rendering of an integer: the same text as %d
+		if (name == "strconv.Itoa" || name == "strconv.FormatInt" || name == "strconv.FormatUint") && len(x.Call.Args) >= 1 {
+			base10 := name == "strconv.Itoa"
+			if !base10 {
+				if k, ok := constInt(x.Call.Args[1]); ok && k == 10 {
+					base10 = true
+				}
+			}
+			if base10 {
+				arg := strip(x.Call.Args[0])
+				if cv, ok := arg.(*ssa.Convert); ok && isIntegerType(cv.X.Type()) {
+					arg = strip(cv.X)
+				}
+				return sval{parts: []spart{{Leaf: arg, Verb: "d"}}}
+			}
 		}
 		callee := x.Common().StaticCallee()
 		if callee != nil && w.isMain(callee) && callee.Blocks != nil {
@@ -171,8 +196,35 @@ func renderParts(parts []spart, role func(ssa.Value) string) string {
 		if p.Leaf == nil {
 			b.WriteString(p.Lit)
 		} else {
-			b.WriteString("{" + role(p.Leaf) + ":%" + p.Verb + "}")
+			verb := p.Verb
+			if (verb == "+" || verb == "v") && isStringType(p.Leaf.Type()) {
+				verb = "s" // concatenation, %v and %s print a string alike
+			}
+			b.WriteString("{" + role(p.Leaf) + ":%" + verb + "}")
 		}
 	}
 	return b.String()
+}
+
+// mergeLits joins adjacent literal parts, so that "a" + ":" + b and Sprintf("a:%s", b) evaluate to the same term.
+func mergeLits(parts []spart) []spart {
+	var out []spart
+	for _, p := range parts {
+		if p.Leaf == nil && len(out) > 0 && out[len(out)-1].Leaf == nil {
+			out[len(out)-1].Lit += p.Lit
+			continue
+		}
+		if p.Leaf == nil && p.Lit == "" {
+			continue
+		}
+		out = append(out, p)
+	}
+	return out
+}
+
+// evalStrUnder evaluates a string term of fn with the phis of fn resolved under keep.
+func (w *World) evalStrUnder(fn *ssa.Function, v ssa.Value, keep edgeKeep) sval {
+	w.strKeep, w.strFn = keep, fn
+	defer func() { w.strKeep, w.strFn = nil, nil }()
+	return w.evalStr(v, senv{}, 0)
 }
